@@ -70,6 +70,21 @@ def gen(rng, tier, quarantine=()):
             rounds.append({"probe": probe2, "calls": calls2})
             if rng.random() < 0.5:
                 rounds.reverse()
+        if rng.random() < 0.15:
+            # one more round whose activation is refused (a variable the function does not have, or a
+            # chain through something that cannot be instrumented): the refusal happens while the
+            # other threads are under way, and must leave nothing behind -- no lock either
+            fn3 = rng.choice(shared)
+            q3 = QUAL.get(fn3, fn3)
+            if rng.random() < 0.5:
+                bad = {"levels": [{"fn": q3, "caps": [], "sibs": []}], "focus": {"var": "nosuchvar", "as": "nosuchvar"}}
+            else:
+                bad = {"levels": [{"fn": q3, "caps": [], "sibs": []}, {"fn": "NOTFN", "caps": [], "sibs": []}],
+                       "focus": {"var": "#value", "as": "v"}}
+            calls3 = [{"op": "call", "fn": f, "nargs": FNS[f], "tape": gen_tape(rng, 4)}
+                      for f in (rng.choice(shared) for _ in range(rng.randint(0, 2)))]
+            rounds.insert(rng.randint(0, len(rounds)), {"probe": {"sels": [bad], "kind": "probe", "expect_refusal": True},
+                                                        "calls": calls3})
         threads.append({"rounds": rounds})
     bound = 3 if tier == "quick" else 5
     r = rng.random()
